@@ -448,7 +448,7 @@ def run_type(prog, defs, ty, wire, repo_file):
         return out
     state["canon"] = found["canon"]
     # large messages (many decision points) get one unit less of variation budget
-    state["budget"] = BUDGET if found["size"] <= BIG_MESSAGE else max(1, BUDGET - 1)
+    state["budget"] = budget_for(found["size"])
     out["budget"] = state["budget"]
     out["decision_points"] = found["size"]
 
@@ -590,12 +590,26 @@ def load(regenerate=True):
     return prog, defs, parse_bindings(H.REPO)
 
 
+TIER = "quick"
+
+
+def budget_for(size):
+    """variation budget by message size (number of decision points of the canonical message)"""
+    if TIER == "quick":
+        return 2 if size <= BIG_MESSAGE else 1
+    if size <= 25:
+        return 3
+    return 2 if size <= 120 else 1
+
+
 def set_tier(tier):
+    global TIER
+    TIER = tier
     global REPEAT_MAX, BUDGET
     global MAX_PATHS
     REPEAT_MAX = 1 if tier == "quick" else 2
     BUDGET = 2 if tier == "quick" else 3
-    MAX_PATHS = 6000 if tier == "quick" else 40000
+    MAX_PATHS = 6000 if tier == "quick" else 20000
 
 
 def compiled(prog, ty, wire):
